@@ -34,6 +34,7 @@ func init() {
 	}
 	register("C18", func(c *Ctx) {
 		p := c.P
+		c18ResumeAboveFloor(c)
 		c.Explain = "Bookkeeping contract of the migration runner and persisted identifiers, decided on SSA/CFG and constant evaluation: (applied-bit) a migration's applied bit is set only in runMigration, after Migrate returned, on the branch where the returned intermediate state is nil, and the metadata write and the intermediate-state delete share one batch that is written once; (nil-state-contract) no Migrate implementation returns (nil state, context error) — the runner would record it as completed; " +
 			"(validation-first) NewRunner hands out a runner only after opt-out and downgrade validation passed; (target-recorded) the full target version is persisted once, before the first migration runs; (persisted-ids) the byte value of every db.Bucket constant, the CBOR registration order and the migration index order extend the recorded history as a prefix (semantic values, evaluated by go/types — renumbering with explicit constants is fine, reordering is not). " +
 			"Not decided: that converted data equals the original; resumability of each pipeline at each interruption point."
@@ -622,4 +623,94 @@ func c18CommitEveryBatch(c *Ctx) {
 		q = append(q, b.Succs...)
 	}
 	c.check(bad == "", "commit-every-batch", "committer.Run", p.Pos(fnPos(f)), "every successful return is preceded by batch.Write() (or the batch is empty)", "the return at "+bad+" reports success without writing the batch: a batch holds more than transactions (entries of empty blocks, deletions of the old layout), which are lost although the migration then reports completion")
+}
+
+// c18ResumeAboveFloor: (resume-above-floor) a migration that walks blocks and may be resumed starts no lower than the oldest
+// block the database still holds: in every function of migration/* that asks pruner.OldestRetainedBlock, the block number it
+// returns as the start is that floor itself or max(…, floor) — a stored checkpoint alone is not enough, because another
+// migration (history pruning, which runs first) may have raised the floor since the checkpoint was written. Seeded change
+// C18-L returns the checkpoint when there is one: after an interruption followed by enabling pruning, every start fails
+// with key-not-found on a pruned block and the upgrade never finishes.
+func c18ResumeAboveFloor(c *Ctx) {
+	p := c.P
+	n := 0
+	for _, fn := range p.sortedFuncs() {
+		if !strings.HasPrefix(pkgRelOf(fn), "migration/") || fn.Origin() != nil || strings.HasSuffix(p.Pos(fnPos(fn)), "_test.go") {
+			continue
+		}
+		var floor ssa.Value
+		for _, s := range sitesOf(fn) {
+			if s.Callee != nil && s.Callee.Name() == "OldestRetainedBlock" {
+				if v, ok := s.Instr.(ssa.Value); ok {
+					if refs := v.Referrers(); refs != nil {
+						for _, r := range *refs {
+							if ex, ok := r.(*ssa.Extract); ok && ex.Index == 0 {
+								floor = ex
+							}
+						}
+					}
+				}
+			}
+		}
+		if floor == nil {
+			continue
+		}
+		var atLeast func(v ssa.Value, d int) bool
+		atLeast = func(v ssa.Value, d int) bool {
+			if d > 5 {
+				return false
+			}
+			if v == floor {
+				return true
+			}
+			switch x := v.(type) {
+			case *ssa.Call:
+				if b, ok := x.Call.Value.(*ssa.Builtin); ok && b.Name() == "max" {
+					for _, a := range x.Call.Args {
+						if atLeast(a, d+1) {
+							return true
+						}
+					}
+				}
+			case *ssa.Phi:
+				for _, e := range x.Edges {
+					if !atLeast(e, d+1) {
+						return false
+					}
+				}
+				return len(x.Edges) > 0
+			case *ssa.UnOp:
+				// defer-spilled / named result: single store
+				if al, ok := x.X.(*ssa.Alloc); ok {
+					okAll, k := true, 0
+					if refs := al.Referrers(); refs != nil {
+						for _, r := range *refs {
+							if st, ok := r.(*ssa.Store); ok && st.Addr == ssa.Value(al) {
+								k++
+								if !atLeast(st.Val, d+1) {
+									okAll = false
+								}
+							}
+						}
+					}
+					return okAll && k > 0
+				}
+			}
+			return false
+		}
+		for _, r := range returnsOf(fn) {
+			if len(r.Results) < 2 || !isNilConst(r.Results[len(r.Results)-1]) {
+				continue
+			}
+			if bt, ok := r.Results[0].Type().Underlying().(*types.Basic); !ok || bt.Kind() != types.Uint64 {
+				continue
+			}
+			n++
+			c.check(atLeast(r.Results[0], 0), "resume-above-floor", qname(fn)+": start block", p.Pos(posOf(r.Ret, fn)), "the start is the oldest retained block or max(…, oldest retained block)",
+				"the block a resumable migration starts from ("+clip(term(r.Results[0]), 120)+") is not bounded below by the oldest retained block: a checkpoint written before pruning raised the floor points at blocks that no longer exist, and every start fails on them")
+		}
+	}
+	if n == 0 {
+		c.und("resume-above-floor", "migration/*", "", "no migration function that asks for the oldest retained block and returns a start block was found")
+	}
 }
